@@ -308,7 +308,10 @@ fn emitted_parameter_statements(adapter_dir: &Path) -> String {
     let mut found: Vec<String> = vec![];
     for file in ["edges.rs", "adapter_impl.rs"] {
         let text = std::fs::read_to_string(adapter_dir.join(file)).unwrap_or_default();
-        let flat: String = text.chars().filter(|c| !c.is_whitespace()).collect();
+        // layout only: whitespace, the braces prettyplease puts around multi-line closure bodies,
+        // and the trailing comma it adds when it breaks a call over several lines
+        let flat: String = text.chars().filter(|c| !c.is_whitespace() && *c != '{' && *c != '}').collect();
+        let flat = flat.replace(",)", ")");
         let mut rest = flat.as_str();
         while let Some(eq) = rest.find("=parameters.get(") {
             // walk back to the `let` that starts this statement
@@ -679,17 +682,101 @@ fn consecutive_capitals(s: &str) -> bool {
 // ---------------------------------------------------------------------------------------------
 
 const PROP_TYPES: &[&str] = &["String", "Int!", "[Float]", "[String!]!", "Boolean", "ID!", "Float!", "[Int]", "ID"];
+/// Every supported built-in scalar x {T, T!, [T], [T]!, [T!], [T!]!} (with a valid default), plus a
+/// nested list. (`ID` parameters are a known generator panic, F-C26-3: risky pool only.)
 const PARAM_TYPES: &[(&str, &str)] = &[
-    ("Int!", "5"),
-    ("Int", "3"),
-    ("String!", "\"abc\""),
-    ("String", "null"),
-    ("[Int!]!", "[1,2]"),
-    ("Boolean!", "true"),
-    ("Float!", "1.5"),
-    ("[String]", "[null,\"x\"]"),
+    ("Int", "3"), ("Int!", "5"), ("[Int]", "[null,1]"), ("[Int]!", "[1,null]"), ("[Int!]", "[1]"), ("[Int!]!", "[1,2]"),
+    ("String", "null"), ("String!", "\"abc\""), ("[String]", "[null,\"x\"]"), ("[String]!", "[\"x\",null]"),
+    ("[String!]", "[\"x\"]"), ("[String!]!", "[\"x\",\"y\"]"),
+    ("Float", "1.5"), ("Float!", "1.5"), ("[Float]", "[null,1.5]"), ("[Float]!", "[1.5,null]"), ("[Float!]", "[1.5]"),
+    ("[Float!]!", "[1.5,2.5]"),
+    ("Boolean", "true"), ("Boolean!", "true"), ("[Boolean]", "[null,true]"), ("[Boolean]!", "[true,null]"),
+    ("[Boolean!]", "[true]"), ("[Boolean!]!", "[true,false]"),
     ("[[Float!]]!", "[[1.5]]"),
 ];
+
+/// Parameter names that differ only in case or underscores; every pair stays distinct after
+/// `escaped_rust_name` and avoids the templates' own bindings.
+const PARAM_TWINS: &[(&str, &str)] = &[
+    ("maxItems", "max_items"), ("MaxItems", "maxItems"), ("type", "Type"), ("userID", "userId"), ("_x", "x_"),
+    ("y__", "y_"), ("a__b", "a_b"), ("Limit", "limit"), ("match", "Match"), ("self", "Self"), ("pageSize", "page_size"),
+    ("N1", "n1"),
+];
+/// … and pairs that collide after escaping (F-C26-7, risky pool only).
+const RISKY_PARAM_TWINS: &[(&str, &str)] = &[("type", "type_"), ("match", "match_"), ("gen", "gen_"), ("_", "__x")];
+
+fn list_with_nullable_elements(ty: &str) -> bool {
+    // a scalar name directly followed by `]`: the list's elements may be null
+    ty.as_bytes().windows(2).any(|w| w[0].is_ascii_alphabetic() && w[1] == b']')
+}
+
+fn schema_tags(d: &SchemaDesc) -> Vec<&'static str> {
+    let mut tags = vec![];
+    let lists: Vec<(&Vec<Param>, bool)> = d
+        .root
+        .iter()
+        .map(|e| (&e.params, false))
+        .chain(d.types.iter().flat_map(|t| t.edges().map(|(_, ps)| (ps, true))))
+        .collect();
+    if lists.iter().any(|(ps, on_vertex)| *on_vertex && ps.iter().any(|p| list_with_nullable_elements(&p.ty))) {
+        tags.push("nt:param-list-nullable-elem");
+    }
+    let twin = |ps: &Vec<Param>| {
+        let keys: Vec<String> = ps.iter().map(|p| ref_snake(&p.name).replace('_', "")).collect();
+        has_dup(&keys)
+    };
+    if lists.iter().any(|(ps, _)| twin(ps)) {
+        tags.push("nt:param-name-twins");
+    }
+    tags
+}
+
+/// Every parameter type of the matrix on an edge of a vertex type AND on an entry point.
+fn matrix_schema() -> SchemaDesc {
+    let params: Vec<Param> = PARAM_TYPES
+        .iter()
+        .enumerate()
+        .map(|(i, (ty, d))| Param { name: format!("p{i}"), ty: ty.to_string(), default: if i % 2 == 0 { Some(d.to_string()) } else { None } })
+        .collect();
+    SchemaDesc {
+        root: vec![Entry { name: "Book".into(), ty: "[Book!]!".into(), params: params.clone() }],
+        types: vec![TypeDef {
+            name: "Book".into(),
+            is_interface: false,
+            implements: vec![],
+            fields: vec![
+                Field::Prop { name: "title".into(), ty: "String".into() },
+                Field::Edge { name: "books".into(), ty: "[Book!]".into(), params },
+            ],
+        }],
+    }
+}
+
+/// Every pair of twin parameter names on one edge of a vertex type AND on one entry point.
+fn twins_schema() -> SchemaDesc {
+    let mut params: Vec<Param> = vec![];
+    for (i, (a, b)) in PARAM_TWINS.iter().enumerate() {
+        for n in [a, b] {
+            if !params.iter().any(|p| p.name == **n) {
+                let (ty, _) = PARAM_TYPES[(i * 5 + params.len()) % PARAM_TYPES.len()];
+                params.push(Param { name: n.to_string(), ty: ty.to_string(), default: None });
+            }
+        }
+    }
+    SchemaDesc {
+        root: vec![Entry { name: "Book".into(), ty: "[Book!]!".into(), params: params.clone() }],
+        types: vec![TypeDef {
+            name: "Book".into(),
+            is_interface: false,
+            implements: vec![],
+            fields: vec![
+                Field::Prop { name: "title".into(), ty: "String".into() },
+                Field::Edge { name: "related".into(), ty: "[Book!]".into(), params },
+            ],
+        }],
+    }
+}
+
 
 /// Names that keep clear of every *known* generator defect (known_findings.json): no keyword
 /// relatives, no two consecutive capitals, nothing colliding with the templates' own bindings or imports.
@@ -728,17 +815,25 @@ fn wrap_edge_type(rng: &mut Rng, target: &str) -> String {
     }
 }
 
-fn gen_params(rng: &mut Rng, names: &[&str], types: &[(&str, &str)]) -> Vec<Param> {
+fn gen_params(rng: &mut Rng, names: &[&str], types: &[(&str, &str)], twins: &[(&str, &str)]) -> Vec<Param> {
     let n = [0, 0, 1, 1, 2, 3][rng.below(6)];
     let mut used = BTreeSet::new();
     let mut out = vec![];
-    for _ in 0..n {
-        let name = names[rng.below(names.len())].to_string();
-        if !used.insert(name.clone()) {
-            continue;
+    let mut push = |rng: &mut Rng, name: &str, out: &mut Vec<Param>| {
+        if !used.insert(name.to_string()) {
+            return;
         }
         let (ty, d) = *rng.pick(types);
-        out.push(Param { name, ty: ty.to_string(), default: if rng.chance(1, 2) { Some(d.to_string()) } else { None } });
+        out.push(Param { name: name.to_string(), ty: ty.to_string(), default: if rng.chance(1, 2) { Some(d.to_string()) } else { None } });
+    };
+    for _ in 0..n {
+        let name = names[rng.below(names.len())];
+        push(rng, name, &mut out);
+    }
+    if !twins.is_empty() && rng.chance(1, 3) {
+        let (a, b) = *rng.pick(twins);
+        push(rng, a, &mut out);
+        push(rng, b, &mut out);
     }
     out
 }
@@ -748,6 +843,7 @@ struct Pools<'a> {
     fields: &'a [&'a str],
     params: &'a [&'a str],
     param_types: &'a [(&'a str, &'a str)],
+    param_twins: &'a [(&'a str, &'a str)],
 }
 
 /// A valid schema over the given name pools: 2-5 vertex types, optionally an interface with
@@ -792,7 +888,7 @@ fn gen_schema(rng: &mut Rng, pools: &Pools<'_>) -> SchemaDesc {
                 fields.push(Field::Edge {
                     name: f.to_string(),
                     ty: wrap_edge_type(rng, target),
-                    params: gen_params(rng, pools.params, pools.param_types),
+                    params: gen_params(rng, pools.params, pools.param_types, pools.param_twins),
                 });
             }
         }
@@ -804,7 +900,7 @@ fn gen_schema(rng: &mut Rng, pools: &Pools<'_>) -> SchemaDesc {
         root.push(Entry {
             name: t.name.clone(),
             ty: format!("[{}!]!", t.name),
-            params: gen_params(rng, pools.params, pools.param_types),
+            params: gen_params(rng, pools.params, pools.param_types, pools.param_twins),
         });
     }
     let extra = rng.below(3);
@@ -817,7 +913,7 @@ fn gen_schema(rng: &mut Rng, pools: &Pools<'_>) -> SchemaDesc {
         root.push(Entry {
             name: f.to_string(),
             ty: wrap_edge_type(rng, target),
-            params: gen_params(rng, pools.params, pools.param_types),
+            params: gen_params(rng, pools.params, pools.param_types, pools.param_twins),
         });
     }
     SchemaDesc { root, types }
@@ -913,7 +1009,7 @@ impl Prop for C26 {
         "C26"
     }
     fn rule(&self) -> &'static str {
-        "three streams. (1) mangle: every name of a corpus (camelCase, snake_case, SCREAMING, leading/trailing/double underscores, digits, single letters, every Rust keyword incl. reserved and weak ones with capitalised/suffixed/prefixed relatives, names differing only in case or underscores, names of the templates' own bindings and imports, seeded random names over [abcXYZ_019]) through to_lower_snake_case, upper_case_variant_name, escaped_rust_name; non-trivial: the function changes the name. (2) stub-check: outcome of generate_rust_stub (ok / conflict refusal / panic) on (a) every keyword-ish name placed in every position a generated identifier is derived from (edge parameter, edge, entry point + first parameter, second entry parameter, property, type with edges, type without edges) and (b) seeded valid schemas over a safe pool, a pool of colliding/keyword type names, and a pool with colliding/keyword names everywhere incl. ID-typed parameters; non-trivial: the outcome is not ok. (3) stub-compile: the generated stub is built with `cargo test --no-run --offline` in a scratch crate against /repo/trustfall; seeded schemas from the safe pool plus (corpus) one witness per known defect; every case is non-trivial."
+        "three streams. (1) mangle: every name of a corpus (camelCase, snake_case, SCREAMING, leading/trailing/double underscores, digits, single letters, every Rust keyword incl. reserved and weak ones with capitalised/suffixed/prefixed relatives, names differing only in case or underscores, names of the templates' own bindings and imports, seeded random names over [abcXYZ_019]) through to_lower_snake_case, upper_case_variant_name, escaped_rust_name; non-trivial: the function changes the name. (2) stub-check: outcome of generate_rust_stub (ok / conflict refusal / panic) on (a) every keyword-ish name placed in every position a generated identifier is derived from (edge parameter, edge, entry point + first parameter, second entry parameter, property, type with edges, type without edges) and (b) seeded valid schemas over a safe pool, a pool of colliding/keyword type names, and a pool with colliding/keyword names everywhere incl. ID-typed parameters; non-trivial: the outcome is not ok. (2c) stub-params: the text of every emitted parameter binding (`let <escaped ident>: <Rust type> = parameters.get(name).expect(..).<conversion>`, layout removed) for the same schemas plus two special ones - the full parameter type matrix (Int/String/Float/Boolean x {T, T!, [T], [T]!, [T!], [T!]!} + a nested list) and every twin pair of parameter names (camelCase/snake_case, case twins, keyword/Capitalised, leading/trailing/double underscores), each on an edge of a vertex type AND on an entry point; tags nt:param-list-nullable-elem (a list parameter with nullable elements on a vertex-type edge), nt:param-name-twins (two parameters of one edge equal up to case/underscores). (3) stub-compile: the two special schemas and the generated stub is built with `cargo test --no-run --offline` in a scratch crate against /repo/trustfall; seeded schemas from the safe pool plus (corpus) one witness per known defect; every case is non-trivial."
     }
     fn generate(&self, tier: Tier, rng: &mut Rng) -> Vec<Case> {
         let mut out = vec![];
@@ -945,9 +1041,9 @@ impl Prop for C26 {
             }
         }
         // (2b) generator outcome on seeded schemas
-        let safe = Pools { types: SAFE_TYPE_NAMES, fields: SAFE_FIELD_NAMES, params: SAFE_PARAM_NAMES, param_types: PARAM_TYPES };
-        let risky_types = Pools { types: RISKY_TYPE_NAMES, ..Pools { types: &[], fields: SAFE_FIELD_NAMES, params: SAFE_PARAM_NAMES, param_types: PARAM_TYPES } };
-        let risky_all = Pools { types: RISKY_TYPE_NAMES, fields: RISKY_FIELD_NAMES, params: RISKY_PARAM_NAMES, param_types: RISKY_PARAM_TYPES };
+        let safe = Pools { types: SAFE_TYPE_NAMES, fields: SAFE_FIELD_NAMES, params: SAFE_PARAM_NAMES, param_types: PARAM_TYPES, param_twins: PARAM_TWINS };
+        let risky_types = Pools { types: RISKY_TYPE_NAMES, fields: SAFE_FIELD_NAMES, params: SAFE_PARAM_NAMES, param_types: PARAM_TYPES, param_twins: PARAM_TWINS };
+        let risky_all = Pools { types: RISKY_TYPE_NAMES, fields: RISKY_FIELD_NAMES, params: RISKY_PARAM_NAMES, param_types: RISKY_PARAM_TYPES, param_twins: RISKY_PARAM_TWINS };
         let n_check = if tier == Tier::Quick { 150 } else { 3000 };
         for i in 0..n_check {
             let (pools, pool) = match i % 3 {
@@ -956,16 +1052,35 @@ impl Prop for C26 {
                 _ => (&risky_all, "pool:risky-all"),
             };
             let desc = gen_schema(rng, pools);
-            out.push(Case::new(Sexp::call("stub-check", vec![schema_to_sexp(&desc)]), &["stub-check", pool]));
+            let sx = schema_to_sexp(&desc);
+            let mut tags = vec!["stub-check", pool];
+            tags.extend(schema_tags(&desc));
+            out.push(Case::new(Sexp::call("stub-check", vec![sx.clone()]), &tags));
+            // (2c) the emitted parameter bindings (identifier, Rust type, conversion expression)
+            tags[0] = "stub-params";
+            if desc.root.iter().any(|e| !e.params.is_empty()) || desc.types.iter().any(|t| t.edges().any(|(_, p)| !p.is_empty())) {
+                tags.push("nt:has-parameters");
+            }
+            out.push(Case::new(Sexp::call("stub-params", vec![sx]), &tags));
         }
-        // (3) compile oracle
+        // the full parameter type matrix and every twin pair, on a vertex edge and on an entry point:
+        // emitted text and real compilation
+        for (desc, what) in [(matrix_schema(), "special:type-matrix"), (twins_schema(), "special:name-twins")] {
+            let sx = schema_to_sexp(&desc);
+            let mut tags = vec!["stub-params", what, "nt:has-parameters"];
+            tags.extend(schema_tags(&desc));
+            out.push(Case::new(Sexp::call("stub-params", vec![sx.clone()]), &tags));
+            tags[0] = "stub-compile";
+            tags.push("nt:compile-oracle");
+            out.push(Case::new(Sexp::call("stub-compile", vec![sx]), &tags));
+        }
+        // (3) compile oracle on seeded schemas
         let n_compile = if tier == Tier::Quick { 2 } else { 40 };
         for _ in 0..n_compile {
             let desc = gen_schema(rng, &safe);
-            out.push(Case::new(
-                Sexp::call("stub-compile", vec![schema_to_sexp(&desc)]),
-                &["stub-compile", "pool:safe", "nt:compile-oracle"],
-            ));
+            let mut tags = vec!["stub-compile", "pool:safe", "nt:compile-oracle"];
+            tags.extend(schema_tags(&desc));
+            out.push(Case::new(Sexp::call("stub-compile", vec![schema_to_sexp(&desc)]), &tags));
         }
         out
     }
@@ -1021,6 +1136,10 @@ impl Prop for C26 {
         let Some((h, args)) = e.request.as_call() else { return vec![] };
         if h == "mangle" {
             return vec![];
+        }
+        if h == "stub-params" {
+            let n = if e.answer == "-" || e.answer.starts_with("not-generated") { 0 } else { e.answer.split(";;").count() };
+            return vec![format!("bindings:{}", n.min(9))];
         }
         let class = if e.answer.starts_with("(conflict vertex") {
             "conflict-vertex".to_string()
@@ -1113,6 +1232,9 @@ impl Prop for C26 {
             "mangle_requests": count("(mangle"),
             "stub_check_schemas": count("(stub-check"),
             "stub_compile_schemas": count("(stub-compile"),
+            "stub_params_schemas": count("(stub-params"),
+            "compiled_with_list_param_nullable_elements_on_vertex_edge": evaluated.iter().filter(|e| e.line.starts_with("(stub-compile") && e.tags.iter().any(|t| t == "nt:param-list-nullable-elem")).count(),
+            "compiled_with_parameter_name_twins": evaluated.iter().filter(|e| e.line.starts_with("(stub-compile") && e.tags.iter().any(|t| t == "nt:param-name-twins")).count(),
             "stubs_compiled_ok": evaluated.iter().filter(|e| e.answer == "compiles").count(),
             "stubs_with_compile_error": evaluated.iter().filter(|e| e.answer == "compile-error").count(),
         })
